@@ -101,6 +101,16 @@ def one_trace(tid, rng, base_kind, thorough):
                 e.update(above=-1, below=-1)
         nodes = {}
         collect(model.tree_, nodes)
+        walked = []
+
+        def walk(nd, depth):
+            walked.append(dict(idx=int(nd.index), above=int(nd.above.index) if nd.above is not None else -1,
+                               below=int(nd.below.index) if nd.below is not None else -1, depth=depth))
+            for ch in (nd.above, nd.below):
+                if ch is not None:
+                    walk(ch, depth + 1)
+        walk(model.tree_, 1)
+        t.update(tree=walked, objs=len(walked), n_nodes=int(model.n_nodes_))
         ev.append(dict(a="fitted", n_nodes=int(model.n_nodes_), depth=int(model.tree_depth_),
                        leaves=[int(v) for v in model.get_leaves_index()], returns_self=ret is model))
         t["returns_self"] = ret is model
@@ -188,10 +198,29 @@ def run(ctx):
         if t.get("returns_self") is False:
             ctx.violation("FitReturnsSelf", SITE, t["sig"], "fit did not return self")
         traces.append(t)
+    # every hook trace has a companion that carries the finished tree and the probe rows only: the clauses of the property
+    # are decided on it; a fit that is not a run of the modelled stack machine, with the companion accepted, is MODEL-DRIFT
+    comp = {}
+    for t in list(traces):
+        t.setdefault("kind", "hook")
+        t.setdefault("tree", [])
+        t.setdefault("objs", 0)
+        t.setdefault("n_nodes", 0)
+        if t["tree"]:
+            c = dict(t, id="%sf" % t["id"], kind="final", ev=[e for e in t["ev"] if e["a"] in ("fitted", "row", "raised")])
+            comp[t["id"]] = c["id"]
+            traces.append(c)
     verdicts, st = tlc.validate("LogregTrace", "LogregTrace.cfg", traces, timeout=2400)
     ctx.states += st["states"]
     ctx.transitions += st["transitions"]
-    ctx.verdicts(verdicts, {t["id"]: t for t in traces}, SITE, classify=classify)
+    byid = {t["id"]: t for t in traces}
+    ctx.verdicts({k: v for k, v in verdicts.items() if k not in comp}, byid, SITE, classify=classify)
+    for tid_, cid in comp.items():
+        v = verdicts[tid_]
+        ctx.traces += 1
+        if not v.ok and verdicts[cid].ok:
+            ctx.model_drift("DecisionTreeLogisticRegression.fit is not a run of the LogregTree stack machine (%s)" % classify(byid[tid_], v)[0],
+                            SITE, v.describe())
     ctx.extra.setdefault("trace_runs", []).append(dict(spec="LogregTrace", traces=len(traces), **st))
     ctx.exhaustive = False
     ctx.rule = ("MC: every tree the recursion can build for <=%d rows (all split outcomes, depth/leaf/split parameters), all "
